@@ -192,10 +192,26 @@ func explore(p *Program, cfg *HarnessCfg, workers int, deadline time.Time) (*Run
 				rr.DistinctPaths++
 			}
 			for _, v := range res.Violations {
+				// keep the first three counterexamples of an obligation, and beyond those
+				// up to nine more whose leading choices differ from the ones kept (a
+				// counterexample that does not replay natively — a solver's free choice of
+				// a hash value, say — must not crowd out one that does)
 				key := v.Kind + "|" + v.Label + "|" + v.Pos
 				violSeen[key]++
+				sig := key + "#"
+				for i, nd := range v.Nondet {
+					if i >= 3 {
+						break
+					}
+					sig += fmt.Sprintf("%s=%v;", nd.Label, nd.Vals)
+				}
 				if violSeen[key] <= 3 {
 					rr.Violations = append(rr.Violations, v)
+					violSeen[sig]++
+				} else if violSeen[sig] == 0 && violSeen[key+"#extra"] < 9 {
+					rr.Violations = append(rr.Violations, v)
+					violSeen[sig]++
+					violSeen[key+"#extra"]++
 				}
 			}
 			for l := range res.Reached {
